@@ -28,8 +28,10 @@ ASSUMPTIONS = [
 
 LIFE = ["connecting", "await-cea", "open-idle", "open-inbound", "open-outbound", "open-consumer", "open-sender", "closing"]
 CAUSES = {
-    "connecting": ["refuse"],
-    "await-cea": ["eof", "rst", "non-cea"],
+    # "close-early": the application stops the node before the connection is Open; the peer, which cannot know,
+    # goes on with the handshake and answers a DPR if it gets one
+    "connecting": ["refuse", "close-early"],
+    "await-cea": ["eof", "rst", "non-cea", "close-early"],
     "open-idle": ["close", "dpr", "eof", "rst"],
     "open-inbound": ["close", "dpr", "eof"],
     "open-outbound": ["close", "dpr", "eof", "rst"],
@@ -72,6 +74,8 @@ class Termination(explore.Scenario):
             if role == "server":
                 rt.stop("not-applicable")
             n.peer.wait_connect(timeout=5.0)
+            if cause == "close-early":
+                n.settle(0.5)        # the state machine has left Closed (Wait-Conn-Ack): close() is accepted
         elif life == "await-cea":
             if role == "server":
                 rt.stop("not-applicable")
@@ -150,6 +154,24 @@ class Termination(explore.Scenario):
                     dprs = [m for m in node.split_stream(n.peer.received())[0] if node.header_of(m)["code"] == 282]
                     h = node.header_of(dprs[-1])
                     n.peer.send(node.dpa(h["hbh"], h["e2e"]))
+            elif cause == "close-early":
+                try:
+                    d.close()
+                except BaseException as e:  # noqa
+                    if isinstance(e, shims.sched.Abort):
+                        raise
+                    obs["close_raised"] = f"{type(e).__name__}: {e}"
+                if life == "connecting":
+                    n.peer.accept()
+                got = n.wait_messages(1, timeout=10.0)
+                if got:
+                    h = node.header_of(got[0])
+                    n.peer.send(node.cea(h["hbh"], h["e2e"]))
+                    if n.peer.wait_for(lambda: any(node.header_of(m)["code"] == 282 for m in node.split_stream(n.peer.received())[0]),
+                                       "dpr-seen", timeout=rt.stall_time + 8.0):
+                        dprs = [m for m in node.split_stream(n.peer.received())[0] if node.header_of(m)["code"] == 282]
+                        h = node.header_of(dprs[-1])
+                        n.peer.send(node.dpa(h["hbh"], h["e2e"]))
             elif cause == "dpr":
                 n.peer.send(node.dpr(7, 8))
             elif cause == "dpa":
@@ -248,7 +270,8 @@ def all_cases():
 def plan(tier):
     deep = {("client", "open-idle", "close"), ("server", "open-consumer", "eof"), ("server", "open-idle", "dpr"),
             ("client", "open-outbound", "close"), ("client", "await-cea", "eof"), ("server", "closing", "eof"),
-            ("client", "open-sender", "close"), ("server", "open-sender", "eof"), ("server", "open-outbound", "rst")}
+            ("client", "open-sender", "close"), ("server", "open-sender", "eof"), ("server", "open-outbound", "rst"),
+            ("client", "await-cea", "close-early")}
     for p in all_cases():
         key = (p["role"], p["life"], p["cause"])
         if tier == "quick":
